@@ -10,6 +10,7 @@ import (
 	"flag"
 	"fmt"
 	"io"
+	stdlog "log"
 	"os"
 	"os/exec"
 	"path/filepath"
@@ -33,6 +34,7 @@ func die(code int, format string, a ...interface{}) {
 func main() {
 	logrus.SetOutput(io.Discard)
 	logrus.SetLevel(logrus.PanicLevel)
+	stdlog.SetOutput(io.Discard) // net/http and httputil.ReverseProxy report upstream errors here
 	if len(os.Args) < 3 {
 		die(2, "usage: verif check|replay|worker ...")
 	}
